@@ -157,3 +157,74 @@ def fstring_pattern(e: ast.AST) -> Optional[str]:
                 out += "{" + spec + "}"
         return out
     return None
+
+
+# ---------------------------------------------------------------------- structural pattern matching with metavariables
+
+class _NoMatch(Exception):
+    pass
+
+
+def _unify(p: ast.AST, n: ast.AST, metas, b: Dict[str, str]) -> None:
+    if isinstance(p, ast.Name) and p.id in metas:
+        if p.id == "ANY":
+            return
+        t = norm(n)
+        if p.id in b and b[p.id] != t:
+            raise _NoMatch()
+        b[p.id] = t
+        return
+    if isinstance(p, ast.Expr) and not isinstance(n, ast.Expr):
+        p = p.value
+    if type(p) is not type(n):
+        raise _NoMatch()
+    for fname, pv in ast.iter_fields(p):
+        if fname in ("ctx", "lineno", "col_offset", "end_lineno", "end_col_offset", "type_comment", "kind"):
+            continue
+        nv = getattr(n, fname, None)
+        if isinstance(pv, list):
+            if not isinstance(nv, list) or len(pv) != len(nv):
+                raise _NoMatch()
+            for a, c in zip(pv, nv):
+                if isinstance(a, ast.AST):
+                    _unify(a, c, metas, b)
+                elif a != c:
+                    raise _NoMatch()
+        elif isinstance(pv, ast.AST):
+            if not isinstance(nv, ast.AST):
+                raise _NoMatch()
+            _unify(pv, nv, metas, b)
+        else:
+            if isinstance(p, ast.Constant) and fname == "value":
+                if pv != nv or type(pv) is not type(nv):
+                    if not (isinstance(pv, (int, float)) and isinstance(nv, (int, float)) and not isinstance(pv, bool)
+                            and not isinstance(nv, bool) and float(pv) == float(nv)):
+                        raise _NoMatch()
+            elif pv != nv:
+                raise _NoMatch()
+
+
+def pmatch(root: ast.AST, pattern: str, metas: Iterable[str] = (), binding: Optional[Dict[str, str]] = None
+           ) -> List[Tuple[ast.AST, Dict[str, str]]]:
+    """All sub-nodes of `root` matching the source pattern; identifiers listed in `metas` are metavariables that bind
+    (consistently) to arbitrary expressions, `ANY` matches anything without binding.  Robust to renaming of locals,
+    formatting and comments; `binding` pre-binds metavariables."""
+    metas = set(metas) | {"ANY"}
+    pt = ast.parse(pattern.strip()).body[0]
+    if isinstance(pt, ast.Expr):
+        pt = pt.value
+    out = []
+    for n in ast.walk(root):
+        b = dict(binding or {})
+        try:
+            _unify(pt, n, metas, b)
+        except _NoMatch:
+            continue
+        out.append((n, b))
+    return out
+
+
+def pfind(root: ast.AST, pattern: str, metas: Iterable[str] = (), binding: Optional[Dict[str, str]] = None):
+    """First match (node, binding) or (None, {})."""
+    m = pmatch(root, pattern, metas, binding)
+    return m[0] if m else (None, {})
